@@ -110,7 +110,12 @@ class Motor(Dev):
         return st
 
     def stop(self, *, success=True):
-        self.H.led([self.name, "stop", None])
+        # like a real positioner: stop(success=False) marks the moves still in flight as failed
+        self.H.led([self.name, "stop", None if success else "fail"])
+        if not success:
+            for st in list(self.H.statuses):
+                if st.dev == self.name and not st.done:
+                    st.finish(False)
         if self._mode("stop") == "raise":
             raise DeviceError(f"{self.name}.stop raised")
 
@@ -412,6 +417,9 @@ class Harness:
             self.schema_errors.append(f"{name}: {type(e).__name__}: {str(e)[:120]}")
         if name == "stop" and self._closing_by_engine:
             self.engine_closed.append(d["run"])
+        # implementation-only probes: actions fired by a subscriber while a document of this kind is dispatched
+        for act in self.sc.get("doc_triggers", {}).get(name, []):
+            self._issue(act)
 
     @staticmethod
     def canon_reason(r):
